@@ -10,6 +10,7 @@
 #include <iostream>
 #include <chrono>
 #include <unistd.h>
+#include <cstring>
 #include <sys/stat.h>
 
 using namespace vf;
@@ -77,7 +78,11 @@ static std::set<std::string> split_set(const std::string &s) {
 int main(int argc, char **argv) {
 	// GLib's slice allocator hides use-after-free / double free of GString, GArray ... headers
 	// from AddressSanitizer; route everything through malloc (must happen before GLib is used)
-	setenv("G_SLICE", "always-malloc", 1);
+	// ... and GLib reads G_SLICE in a load-time constructor: setting it here is too late, so re-execute once.
+	if (!getenv("G_SLICE") || strcmp(getenv("G_SLICE"), "always-malloc")) {
+		setenv("G_SLICE", "always-malloc", 1);
+		execv("/proc/self/exe", argv);
+	}
 	if (argc < 2) { fprintf(stderr, "usage: vfprop run|replay|list ...\n"); return 2; }
 	std::string cmd = argv[1];
 	if (cmd == "list") {
